@@ -8,6 +8,7 @@
 //!   `{"op":"c_status","s":S}`            `RepliconClient::set_status`
 //!   `{"op":"c_send","ch":c,"n":n}`       `RepliconClient::send` (payload = n)
 //!   `{"op":"c_insert","ch":c,"n":n}`     `RepliconClient::insert_received`
+//!   `{"op":"c_stat"}`                    `RepliconClient::stats_mut` (all four figures set to non-zero)
 //!   `{"op":"c_drain","got":[[ch,n]..]}`  `RepliconClient::drain_sent`, expected result
 //!   `{"op":"c_receive","ch":c,"got":[n..]}`  the crate's `receive`, expected result
 //!   `{"op":"s_running","b":bool}` / `s_send` / `s_insert` / `s_remove` / `s_drain` / `s_receive` likewise.
@@ -109,6 +110,11 @@ impl Real {
             .collect()
     }
 
+    fn stats_dirty(&self) -> bool {
+        let stats = self.client.stats();
+        stats.rtt != 0.0 || stats.packet_loss != 0.0 || stats.sent_bps != 0.0 || stats.received_bps != 0.0
+    }
+
     /// Applies one op; returns a description of the disagreement with the expected result, if any.
     fn apply(&mut self, op: &Value) -> Option<Value> {
         let name = op["op"].as_str().expect("op");
@@ -124,6 +130,14 @@ impl Real {
                 if self.client.status() != s {
                     return Some(json!({"what": "status not taken"}));
                 }
+                None
+            }
+            "c_stat" => {
+                let stats = self.client.stats_mut();
+                stats.rtt = 0.25;
+                stats.packet_loss = 1.0;
+                stats.sent_bps = 100.0;
+                stats.received_bps = 200.0;
                 None
             }
             "c_send" => {
@@ -203,6 +217,9 @@ impl Real {
             return Some(json!({"what": "client buffers hold messages while not connected",
                                "cout": self.cout(), "cin": self.cin()}));
         }
+        if !self.client.is_connected() && self.stats_dirty() {
+            return Some(json!({"what": "client statistics of the ended session are still there while not connected"}));
+        }
         if !self.server.is_running()
             && (!self.sout().is_empty() || self.sin().iter().any(|c| !c.is_empty()))
         {
@@ -231,6 +248,11 @@ fn run_case(case: &Value) -> Result<usize, Value> {
         ("sin", json!(exp_sin), json!(real.sin())),
         ("sout", case["sout"].clone(), json!(real.sout())),
     ];
+    if let Some(d) = case["cdirty"].as_bool() {
+        if d != real.stats_dirty() {
+            return Err(json!({"what": "final client statistics differ", "expected": d, "got": real.stats_dirty(), "step": ops.len()}));
+        }
+    }
     for (name, exp, got) in checks {
         if exp != got {
             return Err(json!({"what": format!("final content of {name} differs"), "expected": exp, "got": got, "step": ops.len()}));
